@@ -240,8 +240,13 @@ func c04One(rc *RunCtx) (c04Case, uint64, bool) {
 		rd.errAt = t.F(len(data) + 1)
 		rd.errData = t.FBool(1, 2)
 		rd.transient = t.FBool(1, 3)
-		if t.FBool(1, 4) {
+		switch t.F(8) {
+		case 0, 1:
 			rd.errVal = io.ErrUnexpectedEOF
+		case 2, 3:
+			// an error that calls itself temporary (EAGAIN, EINTR through a wrapper): still a non-EOF read error - it is
+			// reported once, ends the stream, and the bytes that came with it or before it are delivered as lines
+			rd.errVal = errC04Temporary
 		}
 	}
 	var sc readahead.Scanner
@@ -455,6 +460,14 @@ func init() {
 		rc.EndReasons["scanner-ended"]++
 	}
 }
+
+type c04TempErr struct{}
+
+func (c04TempErr) Error() string   { return "resource temporarily unavailable (injected)" }
+func (c04TempErr) Temporary() bool { return true }
+func (c04TempErr) Timeout() bool   { return false }
+
+var errC04Temporary error = c04TempErr{}
 
 func c04PipelineWorld(rc *RunCtx) {
 	sc := genPipeScenario(rc, true, 40)
